@@ -34,6 +34,8 @@ class GovGen:
         self.fund(creator)
         k = self.counts.get(creator, 0)
         ref = f"@{creator}-{k}"
+        for a in ADMINS:
+            self.ops.append(f"q obj role @{a}")      # who is an available governance admin when the proposal is created
         self.ops.append(f"block bvm {creator} {call}")
         self.ops.append(f"q prop {ref}")
         self.ops.append(f"q obj {mod} {obj}")
@@ -111,6 +113,42 @@ class GovGen:
         self.tags.add("withdraw")
 
 
+def scripted_frozen_admin(g):
+    """an administrator is frozen (approved), proposals are created while he is unavailable, he is activated again and votes
+    on them: only administrators who were eligible when a proposal was created may vote on it"""
+    r = g.r
+    x = r.choice(["adm1", "adm2", "adm3"])
+    others = [a for a in ADMINS if a != x]
+    g.submit(others[0], f"role FreezeRole s:@{x} s:reason", "role-freeze", "role", "@" + x)
+    ref = g.props[-1][0]
+    for v in others:
+        g.ops.append(f"q prop {ref}")
+        g.ops.append(f"q obj role @{v}")
+        g.ops.append(f"block bvm {v} gov Vote s:{ref} s:approve s:r")
+    g.ops.append(f"q prop {ref}")
+    g.ops.append(f"q obj role @{x}")
+    c = r.choice(["c1", "c2", "c4"])
+    g.submit(others[1], f"appchain FreezeAppchain s:{c} s:reason", "appchain-freeze", "appchain", c)
+    p_ref, _, p_mod, p_obj = g.props[-1]
+    g.submit(others[0], f"role ActivateRole s:@{x} s:reason", "role-activate", "role", "@" + x)
+    a_ref = g.props[-1][0]
+    for v in others:
+        g.ops.append(f"q prop {a_ref}")
+        g.ops.append(f"q obj role @{v}")
+        g.ops.append(f"block bvm {v} gov Vote s:{a_ref} s:approve s:r")
+    g.ops.append(f"q prop {a_ref}")
+    g.ops.append(f"q obj role @{x}")
+    # the re-activated administrator and one other vote on the proposal created while he was frozen
+    for v in (x, others[2]):
+        g.ops.append(f"q prop {p_ref}")
+        g.ops.append(f"q obj role @{v}")
+        g.ops.append(f"q obj {p_mod} {p_obj}")
+        g.ops.append(f"block bvm {v} gov Vote s:{p_ref} s:approve s:r")
+        g.ops.append(f"q prop {p_ref}")
+        g.ops.append(f"q obj {p_mod} {p_obj}")
+    g.tags.add("frozen-admin-scenario")
+
+
 def scripted_priority(g):
     """concurrent proposals on one object with different priorities: a freeze (priority 2) is proposed, then a logout
     (priority 3) of the same object pauses it; the paused proposal is withdrawn / voted on / left alone; the logout is
@@ -171,8 +209,11 @@ def gen_c15(rng, n, tier):
         r = _r.Random(rng.getrandbits(64))
         g = GovGen(r)
         g.ops.append(f"world audit={r.choice([0, 0, 1])} price=1")
-        if r.random() < 0.2:
+        k0 = r.random()
+        if k0 < 0.2:
             scripted_priority(g)
+        elif k0 < 0.35:
+            scripted_frozen_admin(g)
         g.propose()
         for _ in range(r.randint(6, 22)):
             k = r.random()
@@ -248,6 +289,14 @@ def mon_c15(h, obs):
                 el = {e.split(":")[0] for e in p["electorate"]}
                 if any(nm not in el for nm in names):
                     hits.append(Hit("C15/ballot-of-non-elector", f"{ref}: ballots {p['voters']} electorate {sorted(el)}", detail=op))
+                if ref not in last:
+                    # first sight = creation: the electorate is the set of administrators available at that moment
+                    bad = sorted(e.split(":")[0] for e in p["electorate"] if role.get(e.split(":")[0]) is not None and role[e.split(":")[0]] not in ROLE_AVAILABLE)
+                    miss = sorted(a for a in ADMINS if role.get(a) in ROLE_AVAILABLE and a not in {e.split(":")[0] for e in p["electorate"]})
+                    if bad and p["status"] == "proposed" and not p["voters"]:
+                        hits.append(Hit("C15/unavailable-admin-in-electorate", f"{ref} was created with electorate {p['electorate']} although {bad} had role status {[role[b] for b in bad]}", detail=op))
+                    if miss and p["status"] == "proposed" and not p["voters"]:
+                        hits.append(Hit("C15/available-admin-missing-from-electorate", f"{ref} was created with electorate {p['electorate']} although {miss} were available governance admins", detail=op))
                 if ref in final and p["raw"] != final[ref]:
                     hits.append(Hit("C15/concluded-proposal-changed", f"{ref} was concluded as `{final[ref][:80]}` and now reads `{p['raw'][:80]}`", detail=op))
                 if p["status"] in ("approve", "reject") and ref not in final:
@@ -589,6 +638,41 @@ class LcGen(GovGen):
             self.observe(t)
             self.idx[(f, t)] = i + 1
 
+    def scripted_sequence(self):
+        """three concluded operations in a row about one service and its appchain: service op, appchain op, service op
+        (e.g. service frozen, appchain frozen, service activated: the cascade has to win), each read back, then probes"""
+        r = self.r
+        c = r.choice(["c1", "c2", "c4"])
+        svc = r.choice([x for x in SVC if x.startswith(c + ":")])
+
+        def service_op(ev):
+            who = f"ca{c[1]}" if ev == "LogoutService" else r.choice(ADMINS)
+            self.submit(who, f"service {ev} s:{svc} s:reason", "service-" + ev[:-7].lower(), "service", svc)
+
+        def chain_op(ev):
+            who = f"ca{c[1]}" if ev == "LogoutAppchain" else r.choice(ADMINS)
+            self.submit(who, f"appchain {ev} s:{c} s:reason", "appchain-" + ev[:-8].lower(), "appchain", c)
+
+        steps = [lambda: service_op(r.choice(["FreezeService", "FreezeService", "LogoutService"])),
+                 lambda: chain_op(r.choice(["FreezeAppchain", "FreezeAppchain", "LogoutAppchain"])),
+                 lambda: service_op(r.choice(["ActivateService", "ActivateService", "FreezeService"])),
+                 lambda: chain_op(r.choice(["ActivateAppchain", "FreezeAppchain"]))]
+        for k, st in enumerate(steps[:r.choice([3, 3, 4])]):
+            st()
+            ref, kind, mod, obj = self.props[-1]
+            self.vote_all(ref, mod, obj, "approve" if (k < 2 or r.random() < 0.7) else "reject")
+            self.observe(svc)
+        self.tags.add("scripted-sequence")
+        other = "c2:s1" if c != "c2" else "c4:s1"
+        for f, t in ((svc, other), (other, svc)):
+            i = self.idx.get((f, t), 1)
+            self.observe(f)
+            self.observe(t)
+            self.ops.append(f"block ibtp ca{f[1]} {f} {t} {i} req 0 - ok")
+            self.observe(f)
+            self.observe(t)
+            self.idx[(f, t)] = i + 1
+
     def late_vote(self):
         if not self.pending:
             return self.govern()
@@ -607,10 +691,13 @@ def gen_c16(rng, n, tier):
         g.ops.append(f"world audit={r.choice([0, 0, 1])} price=1")
         for s in SVC:
             g.observe(s)
-        if r.random() < 0.25:
+        k0 = r.random()
+        if k0 < 0.25:
             for _ in range(r.randint(0, 2)):
                 g.govern()
             g.scripted_overlap()
+        elif k0 < 0.45:
+            g.scripted_sequence()
         for _ in range(r.randint(5, 14)):
             k = r.random()
             if k < 0.5:
